@@ -203,7 +203,7 @@ M('C04','flush-after-closed','kvstore/mapdb/mapdb.go','''func (s *mapDB) Flush()
 	}
 ''','''func (s *mapDB) Flush() error {
 ''','closed-gate kvstore/mapdb.mapDB.Flush')
-M('C04','realm-order-swapped','kvstore/mapdb/mapdb.go','s.m.delete(byteutils.ConcatBytes(s.realm, key))','s.m.delete(byteutils.ConcatBytes(key, s.realm))','realm/key-prefixed delete call in kvstore/mapdb.mapDB.delete')
+M('C04','realm-order-swapped','kvstore/mapdb/mapdb.go','s.m.delete(byteutils.ConcatBytes(s.realm, key))','s.m.delete(byteutils.ConcatBytes(key, s.realm))','realm/key-prefixed delete call in kvstore/mapdb.mapDB.Delete')
 M('C04','deleteprefix-no-realm','kvstore/mapdb/mapdb.go','s.m.deletePrefix(byteutils.ConcatBytes(s.realm, prefix))','s.m.deletePrefix(prefix)','realm/key-prefixed deletePrefix call in kvstore/mapdb.mapDB.DeletePrefix')
 M('C04','get-no-copy','kvstore/mapdb/synced_map.go','return byteutils.ConcatBytes(value), true','return value, true','copy/in-out kvstore/mapdb.syncedKVMap.get')
 M('C04','set-no-copy','kvstore/mapdb/synced_map.go','s.m[string(key)] = byteutils.ConcatBytes(value)','s.m[string(key)] = value','copy/in-out')
